@@ -43,6 +43,14 @@ TABLE = {
             "sets with many equal-degree terms, under the 4 sort settings: trichotomy, complements, antisymmetry, transitivity and agreement with an independent implementation of the documented "
             "order are asserted on every path. numpy.argsort without kind='stable' is an adversarial stub (any tie order), so platform-dependent tie-breaking is found as a counterexample.",
             E1_NOTE, E1_TECH + "; nondeterministic-environment stub for unstable sorts"),
+    "C08": ("model_checking", "E1 SymObj",
+            "Negative half: the real ndpoly.__array_ufunc__/__array_function__ are symbolically executed with a symbolic method name, an abstract callable and abstract registries whose membership "
+            "is an uninterpreted predicate: on every path the call is forwarded exactly under the documented condition or raises FeatureNotSupported, for any registry contents. Positive half: the "
+            "C09/C10 catalogues (about 55 registered functions), operators, comparisons, logical and unary ufuncs and python-number partners (incl. the neutral elements, floor division with "
+            "symbolic real coefficients) are executed under every spelling (numpoly.f, numpy.f, operator, method, ufunc.reduce/accumulate) on the same symbolic operands in one path and must agree "
+            "in type, shape, names and value.",
+            E1_NOTE + " numpy's routing of calls to the override protocol is trusted. Registry entries that only run on native floats or are not value-level are listed as not encodable in the evidence.",
+            E1_TECH + "; abstract (uninterpreted-predicate) execution of the dispatch methods"),
     "C09": ("model_checking", "E1 SymObj",
             "Symbolic execution of 36 shape/index functions on arrays whose every coefficient is a distinct atom (an element is recognisable wherever it lands, for all values); oracle = numpy "
             "applied to an object array of model polynomials; axes/permutations/sections/k/index grammar enumerated (bounded-exhaustive in the thorough tier).", E1_NOTE, E1_TECH),
